@@ -90,6 +90,14 @@ fn coq_ev(e: &Ev) -> String {
 
 struct Pending { idx: u64, uuid: String, deadline: Instant, task: tokio::task::JoinHandle<Result<DhtNetworkResult, String>>, alive: bool }
 
+/// table size, or UNOBSERVED when a live request is finished / about to hit its own timeout (the size is then in flux)
+fn dsize(c: &Ctx, reqs: &[Pending]) -> u64 {
+    let soon = Instant::now() + Duration::from_millis(80);
+    if reqs.iter().any(|r| r.alive && (r.task.is_finished() || r.deadline < soon)) { return 999999; }
+    let n = c.m.manager.verif_active_operations_len() as u64;
+    if reqs.iter().any(|r| r.alive && r.task.is_finished()) { 999999 } else { n }
+}
+
 /// the DHT-table script
 async fn dht_script(wi: u64, mut rng: Rng) -> anyhow::Result<(Vec<Ev>, Vec<Option<(u64, u64)>>, Vec<u64>, serde_json::Value)> {
     let c = setup(wi, &mut rng).await?;
@@ -176,7 +184,7 @@ async fn dht_script(wi: u64, mut rng: Rng) -> anyhow::Result<(Vec<Ev>, Vec<Optio
                 None => sizes.push(if timed_out.is_empty() { c.m.manager.verif_active_operations_len() as u64 } else { 999999 }),
             }
             for i in timed_out { evs.push(Ev::Finish(i)); obs.push(None); sizes.push(999999); }
-            if let Some(l) = sizes.last_mut() { *l = c.m.manager.verif_active_operations_len() as u64; }
+            if let Some(l) = sizes.last_mut() { *l = dsize(&c, &reqs); }
         } else if choice == 9 && !live.is_empty() {
             // let one request time out
             let i = live[0];
@@ -184,13 +192,13 @@ async fn dht_script(wi: u64, mut rng: Rng) -> anyhow::Result<(Vec<Ev>, Vec<Optio
             reqs[i].alive = false;
             if let Ok(Ok(Ok(r))) = res { anyhow::bail!("request completed without a delivery: {r:?}"); }
             evs.push(Ev::Finish(reqs[i].idx)); obs.push(None);
-            sizes.push(c.m.manager.verif_active_operations_len() as u64);
+            sizes.push(dsize(&c, &reqs));
         } else if choice == 10 && !live.is_empty() {
             let i = live[rng.below(live.len() as u64) as usize];
             reqs[i].task.abort(); reqs[i].alive = false;
             let _ = (&mut reqs[i].task).await;
             evs.push(Ev::Cancel(reqs[i].idx)); obs.push(None);
-            sizes.push(c.m.manager.verif_active_operations_len() as u64);
+            sizes.push(dsize(&c, &reqs));
         } else if choice == 11 {
             // age everything beyond the sweep horizon (only when no live request could time out ambiguously)
             if live.is_empty() {
@@ -208,7 +216,7 @@ async fn dht_script(wi: u64, mut rng: Rng) -> anyhow::Result<(Vec<Ev>, Vec<Optio
         let _ = tokio::time::timeout(Duration::from_secs(5), &mut r.task).await;
         evs.push(Ev::Finish(r.idx)); obs.push(None); sizes.push(999999);
     }
-    if let Some(l) = sizes.last_mut() { *l = c.m.manager.verif_active_operations_len() as u64; }
+    if let Some(l) = sizes.last_mut() { *l = dsize(&c, &reqs); }
     let desc = json!({"kind": "dht-table", "events": evs.iter().map(coq_ev).collect::<Vec<_>>(), "observed": format!("{:?}", obs), "sizes": sizes});
     let _ = tokio::time::timeout(Duration::from_secs(20), c.m.manager.stop()).await;
     let _ = tokio::time::timeout(Duration::from_secs(5), c.m.transport.stop()).await;
